@@ -22,10 +22,13 @@ CODES = {
     2: "ctx.Err() seen by the plugin differs (context cancelled exactly in the overrun invocations)",
     3: "recorded attempts differ from run_action (one per invocation, in order, response / error / time order)",
     4: "final status differs from run_action",
-    5: "event trace of the run is not accepted by ActionAuto",
-    6: "monitor of Appendix B rejects the run's trace",
+    5: "the monitor passes but the event trace of the run is not accepted by ActionAuto",
+    6: "the monitor of Appendix B (C05/C08a for one run) rejects the run's event trace: a Start without the previous attempt "
+       "durable / after a final outcome / beyond retries+1, an attempt write that is not the next one or contradicts what the "
+       "plugin returned, or a terminal write whose attempt count is not the number of invocations",
     7: "property evaluated on the observation itself is false",
     8: "attempts / status read back from storage differ from the last write of the last run",
+    10: "the plan hung with this action run stuck before its terminal write (no event for over a second): no final status",
     9: "an action that never started has attempts, a status other than NotStarted, or other events than NotStarted writes",
 }
 
